@@ -245,3 +245,26 @@ pub fn hash64(bytes: &[u8]) -> u64 {
     }
     h
 }
+
+/// Integers sitting on, or one unit beside, the boundaries of machine-word size classes: +-(2^k + d) for the word
+/// sizes k, +-(10^k + d) for the powers of ten nearest to them, floor(2^64 / 10^j) + d and 2^64 - 10^19 + d (what 10^19
+/// becomes when narrowed to i64), d in -1..=1.  Used by the exhaustive "words" units.
+pub fn word_values() -> Vec<BigInt> {
+    let mut v: Vec<BigInt> = vec![];
+    let one = BigInt::from(1u8);
+    let mut bases: Vec<BigInt> = vec![];
+    for k in [7usize, 8, 15, 16, 31, 32, 52, 53, 63, 64, 96, 127, 128, 192] { bases.push(&one << k); }
+    for k in [2u64, 4, 9, 10, 15, 16, 17, 18, 19, 20, 38, 39, 40] { bases.push(pow10(k)); }
+    for j in 1u64..=4 { bases.push((&one << 64usize) / pow10(j)); }
+    bases.push((&one << 64usize) - pow10(19));
+    bases.push((&one << 63usize) / 5);
+    for b in bases {
+        for d in -1i64..=1 {
+            v.push(&b + d);
+            v.push(-(&b + d));
+        }
+    }
+    v.sort();
+    v.dedup();
+    v
+}
